@@ -638,6 +638,8 @@ namespace mc
     {
         bfs_hist = g_front.hist[i];
         bfs_op = -1;
+        slot->item = i; // from here on a death belongs to this item
+        slot->op = from_op - 1;
         std::unique_ptr<Model> m = bfs_build(bfs_hist);
         if (from_op == 0)
         {
@@ -718,7 +720,7 @@ namespace mc
             harness_error("cannot open %s", rn.c_str());
         if (resume)
         {
-            bfs_item(slot->item, slot->op + (slot->redo ? 0 : 1), rec);
+            bfs_item(slot->item, std::max(0, slot->op + (slot->redo ? 0 : 1)), rec);
             slot->redo = 0;
             fflush(rec);
         }
@@ -753,6 +755,7 @@ namespace mc
         std::string name, kind;
         uint64_t evals = 0, states = 0, transitions = 0, nontriv = 0, viol = 0, cut = 0, disabled = 0, outcomes = 0;
         bool exhaustive = true;
+        bool fixpoint = false;
         int depth_reached = 0;
         long frontier_left = 0;
         long crashes = 0, hangs = 0;
@@ -1018,6 +1021,20 @@ namespace mc
         }
     }
 
+    // CPU seconds (user+system) consumed so far by a child process, -1 if unknown
+    static double proc_cpu(pid_t p)
+    {
+        std::string st = read_file(fmt("/proc/%d/stat", (int)p), 4096);
+        size_t rp = st.rfind(')');
+        if (rp == std::string::npos)
+            return -1;
+        unsigned long ut = 0, stt = 0;
+        // fields after the command: state(3) ... utime(14) stime(15)
+        if (sscanf(st.c_str() + rp + 2, "%*c %*d %*d %*d %*d %*d %*u %*u %*u %*u %*u %lu %lu", &ut, &stt) != 2)
+            return -1;
+        return (double)(ut + stt) / (double)sysconf(_SC_CLK_TCK);
+    }
+
     // run all workers for the current phase (a tree check or one bfs level)
     static void run_phase(Check &c, SubResult &r)
     {
@@ -1026,10 +1043,12 @@ namespace mc
         std::vector<uint64_t> lastp(nw, 0);
         std::vector<double> lastt(nw, now());
         std::vector<bool> hangkill(nw, false);
+        std::vector<double> cpu0(nw, -1);
         for (int w = 0; w < nw; w++)
         {
             memset((void *)&S->slot[w], 0, sizeof(Slot));
             pid[w] = spawn_worker(c, w, false);
+            lastt[w] = now();
         }
         int live = nw;
         while (live > 0)
@@ -1143,8 +1162,9 @@ namespace mc
                         continue;
                     }
                     lastp[w] = S->slot[w].progress.load();
-                    lastt[w] = now();
                     pid[w] = spawn_worker(c, w, true);
+                    lastt[w] = now();
+                    cpu0[w] = -1;
                     continue;
                 }
                 uint64_t pr = S->slot[w].progress.load();
@@ -1152,11 +1172,23 @@ namespace mc
                 {
                     lastp[w] = pr;
                     lastt[w] = now();
+                    cpu0[w] = -1;
                 }
                 else if (now() - lastt[w] > g_case_limit && !hangkill[w])
                 {
-                    hangkill[w] = true;
-                    kill(pid[w], SIGKILL);
+                    // No progress for the wall-clock limit. On a loaded machine that alone is not a hang:
+                    // require that the worker also BURNED the limit in CPU time since then (a loop), or
+                    // that ten times the limit passed (blocked forever).
+                    double cpu = proc_cpu(pid[w]);
+                    if (cpu0[w] < 0)
+                        cpu0[w] = cpu; // first look after the wall limit: start measuring CPU from here
+                    bool burned = cpu >= 0 && cpu0[w] >= 0 && cpu - cpu0[w] > g_case_limit;
+                    bool stuck = now() - lastt[w] > 10 * g_case_limit;
+                    if (burned || stuck || cpu < 0)
+                    {
+                        hangkill[w] = true;
+                        kill(pid[w], SIGKILL);
+                    }
                 }
             }
             if (now() > g_deadline + 10 && !S->stop.load())
@@ -1340,9 +1372,12 @@ namespace mc
         r.cut = S->cut;
         r.disabled = S->disabled;
         r.outcomes = count_outcomes();
-        r.exhaustive = g_front.hist.empty() && !stopped && r.caps.empty() && !S->capped.load();
-        if (!g_front.hist.empty() && !stopped && r.caps.empty())
-            r.caps.push_back(fmt("depth=%d", maxd));
+        // "exhaustive" = the stated space (all histories up to the depth bound, or the whole reachable
+        // state space when the frontier emptied first) was enumerated completely; a deadline, the
+        // max_states cap or a harness cap make it false. Whether the fix-point was reached is reported
+        // separately (frontier_left == 0).
+        r.exhaustive = !stopped && r.caps.empty() && !S->capped.load();
+        r.fixpoint = g_front.hist.empty() && r.exhaustive;
         g_front = Frontier();
         r.wall = now() - t0;
         return r;
@@ -1359,12 +1394,13 @@ namespace mc
             fprintf(f,
                     " {\"name\":\"%s\",\"kind\":\"%s\",\"evaluations\":%llu,\"states\":%llu,\"transitions\":%llu,"
                     "\"nontrivial\":%llu,\"violating\":%llu,\"cut_transitions\":%llu,\"disabled_ops\":%llu,"
-                    "\"outcomes\":%llu,\"exhaustive\":%s,\"depth_reached\":%d,\"frontier_left\":%ld,"
+                    "\"outcomes\":%llu,\"exhaustive\":%s,\"fixpoint\":%s,\"depth_reached\":%d,\"frontier_left\":%ld,"
                     "\"crashes\":%ld,\"hangs\":%ld,\"wall_s\":%.3f,\n  \"caps\":[",
                     jesc(r.name).c_str(), r.kind.c_str(), (unsigned long long)r.evals, (unsigned long long)r.states,
                     (unsigned long long)r.transitions, (unsigned long long)r.nontriv, (unsigned long long)r.viol,
                     (unsigned long long)r.cut, (unsigned long long)r.disabled, (unsigned long long)r.outcomes,
-                    r.exhaustive ? "true" : "false", r.depth_reached, r.frontier_left, r.crashes, r.hangs, r.wall);
+                    r.exhaustive ? "true" : "false", r.fixpoint ? "true" : "false", r.depth_reached, r.frontier_left, r.crashes,
+                    r.hangs, r.wall);
             for (size_t k = 0; k < r.caps.size(); k++)
                 fprintf(f, "%s\"%s\"", k ? "," : "", jesc(r.caps[k]).c_str());
             fprintf(f, "],\n  \"samples\":[");
